@@ -1,7 +1,7 @@
 import re
 from copy import deepcopy
 from datetime import date, datetime
-from math import isclose, isfinite
+from math import isclose, isfinite, isnan
 from typing import Any, Callable, List, Optional, Type, cast
 from uuid import UUID
 
@@ -165,7 +165,9 @@ class Validator(SchemaVisitor[ValidationResult]):
             return result.add_error(error)
 
         if schema.props.value is not Nil:
-            if schema.props.precision is Nil:
+            if isnan(value) and isnan(schema.props.value):
+                pass  # nan is the one float that does not compare equal to itself
+            elif schema.props.precision is Nil:
                 if not isclose(value, schema.props.value):
                     return result.add_error(ValueValidationError(path, value, schema.props.value))
             else:
